@@ -29,6 +29,7 @@ type c01Shape struct {
 	RespHdr   []wire.HeaderLine
 	RespSize  int
 	RespFrame string // length, chunked, flush
+	Trailer   []wire.HeaderLine
 }
 
 func (s c01Shape) String() string {
@@ -50,6 +51,7 @@ func (s c01Shape) request(host string) *wire.Request {
 func (s c01Shape) script() *wire.Script {
 	sc := &wire.Script{Status: s.Status, Interim: s.Interim, Header: append([]wire.HeaderLine{{"Content-Type", "application/octet-stream"}}, s.RespHdr...)}
 	body := pattern(s.RespSize, 11)
+	sc.Trailer = s.Trailer
 	switch s.RespFrame {
 	case "length":
 		sc.DeclareLen = true
@@ -217,6 +219,9 @@ func (in *c01Inst) compare(s c01Shape) (out []c01Diff) {
 	if !reflect.DeepEqual(drh, vrh) {
 		added, del := diff(drh, vrh)
 		add("response/headers", fmt.Sprintf("client header set differs: added %v, missing %v", added, del))
+	}
+	if fmt.Sprint(wire.EndToEnd(dr.Trailer)) != fmt.Sprint(wire.EndToEnd(vr.Trailer)) {
+		add("response/trailers", fmt.Sprintf("client received trailers %v, backend sent %v", vr.Trailer, dr.Trailer))
 	}
 	if dr.Framing != vr.Framing || dr.Get("Content-Length") != vr.Get("Content-Length") {
 		add("response/framing", fmt.Sprintf("client received framing %s (Content-Length %q), backend sent %s (Content-Length %q)", vr.Framing, vr.Get("Content-Length"), dr.Framing, dr.Get("Content-Length")))
@@ -389,6 +394,11 @@ func TestVerifC01(t *testing.T) {
 		for _, hs := range c01RespHeaderSets {
 			x := s
 			x.RespHdr = hs
+			jobs = append(jobs, job{"round_robin", x})
+		}
+		if s.RespFrame == "chunked" && s.Method != "HEAD" {
+			x := s
+			x.Trailer = []wire.HeaderLine{{"X-Checksum", "abc123"}, {"X-Count", "2"}}
 			jobs = append(jobs, job{"round_robin", x})
 		}
 		for _, inst := range []string{"base:/base", "base:/base/", "least_connections", "weighted_round_robin", "ip_hash", "ip_hash_consistent", "ids:req", "ids:trace", "ids:both"} {
